@@ -23,17 +23,17 @@ type identSpec struct {
 }
 
 var identTable = map[string]identSpec{
-	"FixedPartition":        {rel: []string{"out0+out1=in0"}, note: "the two outputs sum to the input"},
-	"VariablePartition":     {rel: []string{"out0+out1=in0"}, note: "the two outputs sum to the input"},
-	"RatingCurvePartition":  {rel: []string{"out0+out1=in0"}, note: "the two outputs sum to the input"},
-	"ApplyScalingFactor":    {outs: map[int][]string{0: {"1*in0*p0"}}, note: "output = input × scale"},
-	"DeliveryRatio":         {outs: map[int][]string{0: {"1*in0*p0"}}, note: "delivered load = generated load × delivery ratio"},
-	"DepthToRate":           {outs: map[int][]string{0: {"0.001*in0*p1*/p0"}}, note: "rate = depth[mm] × 1e-3 × area / Δt"},
-	"Sum":                   {outs: map[int][]string{0: {"1*in0+1*in1"}}, note: "output = i1 + i2"},
-	"Gate":                  {outs: map[int][]string{0: {"1*in1", "0"}}, note: "output is the input or zero (mask)"},
-	"PassLoadIfFlow":        {outs: map[int][]string{0: {"1*in1*p0", "0"}}, note: "output is load × scaling factor or zero"},
-	"FixedConcentration":    {outs: map[int][]string{0: {"0.001*in0*p0"}}, note: "load = flow × concentration × (mg/L→kg/m³)"},
-	"EmcDwc":                {outs: map[int][]string{0: {"0.001*in0*p0"}, 1: {"0.001*in1*p1"}}, rel: []string{"out0+out1=out2"}, note: "quick = flow×EMC×1e-3, slow = flow×DWC×1e-3, total = quick + slow"},
+	"FixedPartition":                    {rel: []string{"out0+out1=in0"}, note: "the two outputs sum to the input"},
+	"VariablePartition":                 {rel: []string{"out0+out1=in0"}, note: "the two outputs sum to the input"},
+	"RatingCurvePartition":              {rel: []string{"out0+out1=in0"}, note: "the two outputs sum to the input"},
+	"ApplyScalingFactor":                {outs: map[int][]string{0: {"1*in0*p0"}}, note: "output = input × scale"},
+	"DeliveryRatio":                     {outs: map[int][]string{0: {"1*in0*p0"}}, note: "delivered load = generated load × delivery ratio"},
+	"DepthToRate":                       {outs: map[int][]string{0: {"0.001*in0*p1*/p0"}}, note: "rate = depth[mm] × 1e-3 × area / Δt"},
+	"Sum":                               {outs: map[int][]string{0: {"1*in0+1*in1"}}, note: "output = i1 + i2"},
+	"Gate":                              {outs: map[int][]string{0: {"1*in1", "0"}}, note: "output is the input or zero (mask)"},
+	"PassLoadIfFlow":                    {outs: map[int][]string{0: {"1*in1*p0", "0"}}, note: "output is load × scaling factor or zero"},
+	"FixedConcentration":                {outs: map[int][]string{0: {"0.001*in0*p0"}}, note: "load = flow × concentration × (mg/L→kg/m³)"},
+	"EmcDwc":                            {outs: map[int][]string{0: {"0.001*in0*p0"}, 1: {"0.001*in1*p1"}}, rel: []string{"out0+out1=out2"}, note: "quick = flow×EMC×1e-3, slow = flow×DWC×1e-3, total = quick + slow"},
 	"SednetDissolvedNutrientGeneration": {outs: map[int][]string{0: {"0.001*in0*p0"}, 1: {"0.001*in1*p1"}}, rel: []string{"out0+out1=out2"}, note: "quick/slow loads linear in flow and concentration with mg/L→kg/m³; total = quick + slow"},
 }
 
@@ -103,14 +103,34 @@ func showPoly(p poly) string {
 type canonCtx struct {
 	pc    polyCtx
 	names map[ssa.Value]string
+	// while expanding a value of a helper called from the kernel: the helper's parameters stand for the call's
+	// arguments, and opaque symbols of helper-local values are kept apart per call site
+	subst map[ssa.Value]ssa.Value
+	scope string
+}
+
+func (cc *canonCtx) osym(v ssa.Value) string {
+	if cc.scope != "" && cc.subst != nil {
+		return cc.pc.sym(v) + "@" + cc.scope
+	}
+	return cc.pc.sym(v)
 }
 
 func (cc *canonCtx) expand(v ssa.Value, depth int) poly {
 	if n, ok := cc.names[v]; ok {
 		return poly{n: 1}
 	}
+	if cc.subst != nil {
+		if a, ok := cc.subst[v]; ok {
+			save := cc.subst
+			cc.subst = nil
+			r := cc.expand(a, depth+1)
+			cc.subst = save
+			return r
+		}
+	}
 	if depth > 40 {
-		return poly{cc.pc.sym(v): 1}
+		return poly{cc.osym(v): 1}
 	}
 	switch x := v.(type) {
 	case *ssa.Const:
@@ -153,10 +173,27 @@ func (cc *canonCtx) expand(v ssa.Value, depth int) poly {
 					return polyMul(cc.expand(x.X, depth+1), poly{strings.Join(inv, "*"): 1 / c})
 				}
 			}
-			return polyMul(cc.expand(x.X, depth+1), poly{"/" + cc.pc.sym(x.Y): 1})
+			return polyMul(cc.expand(x.X, depth+1), poly{"/" + cc.osym(x.Y): 1})
 		}
 	}
-	return poly{cc.pc.sym(v): 1}
+	return poly{cc.osym(v): 1}
+}
+
+// writeSite: one write of an output at the loop's time index, in the kernel or in a straight-line helper the kernel
+// hands the output to.
+type writeSite struct {
+	oi    int
+	val   ssa.Value
+	at    ssa.CallInstruction // the instruction in the kernel (the Set itself or the helper call)
+	subst map[ssa.Value]ssa.Value
+	scope string
+}
+
+func (cc *canonCtx) expandSite(w writeSite) poly {
+	cc.subst, cc.scope = w.subst, w.scope
+	r := cc.expand(w.val, 0)
+	cc.subst, cc.scope = nil, ""
+	return r
 }
 
 func checkIdentities(p *Program, r *Report) {
@@ -214,16 +251,18 @@ func checkIdentityTable(p *Program, r *Report, rule string, table map[string]ide
 		if len(loops) == 1 {
 			ind = loopInduction(loops[0])
 		}
-		atLoopIndex := func(call ssa.CallInstruction) bool {
+		atLoopIndexVal := func(a ssa.Value, at ssa.Instruction) bool {
 			if ind == nil {
 				return false
 			}
-			a := callArgs(call.Common())[0]
 			if isIntVec(a.Type()) {
-				vals, _, unk := vecElemAt(eff, origin1(a), 0, call)
+				vals, _, unk := vecElemAt(eff, origin1(a), 0, at)
 				return unk == "" && len(vals) == 1 && origin1(vals[0]) == ssa.Value(ind)
 			}
 			return origin1(a) == ssa.Value(ind)
+		}
+		atLoopIndex := func(call ssa.CallInstruction) bool {
+			return atLoopIndexVal(callArgs(call.Common())[0], call)
 		}
 		// canonical names for input reads
 		for _, c := range callsIn(k) {
@@ -240,20 +279,56 @@ func checkIdentityTable(p *Program, r *Report, rule string, table map[string]ide
 			}
 		}
 		// write sites
+		var sites []writeSite
+		for ci, c := range callsIn(k) {
+			nm := callName(c.Common())
+			if nm == "Set" || nm == "Set1" {
+				if oi, ok := outIdx[origin1(recvOf(c.Common()))]; ok && atLoopIndex(c) {
+					sites = append(sites, writeSite{oi: oi, val: callArgs(c.Common())[1], at: c})
+				}
+				continue
+			}
+			// a straight-line helper of the module that is handed an output
+			f := c.Common().StaticCallee()
+			if f == nil || f.Blocks == nil || len(f.Blocks) != 1 || !InModule(f) || f.Signature.Recv() != nil || len(f.Params) != len(c.Common().Args) {
+				continue
+			}
+			subst := map[ssa.Value]ssa.Value{}
+			handsOut := false
+			for i, prm := range f.Params {
+				subst[prm] = c.Common().Args[i]
+				if _, ok := outIdx[origin1(c.Common().Args[i])]; ok {
+					handsOut = true
+				}
+			}
+			if !handsOut {
+				continue
+			}
+			for _, c2 := range callsIn(f) {
+				nm2 := callName(c2.Common())
+				if nm2 != "Set" && nm2 != "Set1" {
+					continue
+				}
+				rp, ok := origin1(recvOf(c2.Common())).(*ssa.Parameter)
+				if !ok || subst[rp] == nil {
+					continue
+				}
+				oi, ok := outIdx[origin1(subst[rp])]
+				if !ok {
+					continue
+				}
+				ip, ok := origin1(callArgs(c2.Common())[0]).(*ssa.Parameter)
+				if !ok || subst[ip] == nil || !atLoopIndexVal(subst[ip], c) {
+					continue
+				}
+				sites = append(sites, writeSite{oi: oi, val: callArgs(c2.Common())[1], at: c, subst: subst, scope: fmt.Sprintf("c%d", ci)})
+			}
+		}
 		writes := map[int][]poly{}
 		var wpos = map[int]ssa.Instruction{}
-		for _, c := range callsIn(k) {
-			nm := callName(c.Common())
-			if nm != "Set" && nm != "Set1" {
-				continue
-			}
-			oi, ok := outIdx[origin1(recvOf(c.Common()))]
-			if !ok || !atLoopIndex(c) {
-				continue
-			}
-			val := callArgs(c.Common())[1]
-			writes[oi] = append(writes[oi], cc.expand(val, 0))
-			wpos[oi] = c
+		for _, w := range sites {
+			writes[w.oi] = append(writes[w.oi], cc.expandSite(w))
+			wpos[w.oi] = w.at
 		}
 		if len(writes) == 0 {
 			r.Undecided(rule, key+":writes", p.Pos(k.Pos()), "no output writes at the loop's time index recognised")
@@ -271,12 +346,9 @@ func checkIdentityTable(p *Program, r *Report, rule string, table map[string]ide
 			}
 			for oi := range writes {
 				hasW := map[*ssa.BasicBlock]bool{}
-				for _, c := range callsIn(k) {
-					nm := callName(c.Common())
-					if (nm == "Set" || nm == "Set1") && atLoopIndex(c) {
-						if o2, ok := outIdx[origin1(recvOf(c.Common()))]; ok && o2 == oi {
-							hasW[c.Block()] = true
-						}
+				for _, w := range sites {
+					if w.oi == oi {
+						hasW[w.at.Block()] = true
 					}
 				}
 				// body entry: successor of the header inside the loop
@@ -330,18 +402,14 @@ func checkIdentityTable(p *Program, r *Report, rule string, table map[string]ide
 			}
 			// masks: the non-zero case is written exactly when the driver (input 0) is positive
 			if bad == "" && len(alts) == 2 && alts[1] == "0" {
-				for _, c := range callsIn(k) {
-					nm := callName(c.Common())
-					if nm != "Set" && nm != "Set1" {
+				for _, ws := range sites {
+					if ws.oi != oi {
 						continue
 					}
-					if o2, ok := outIdx[origin1(recvOf(c.Common()))]; !ok || o2 != oi {
-						continue
-					}
-					w := cc.expand(callArgs(c.Common())[1], 0)
+					w := cc.expandSite(ws)
 					nonZero := !polyEqual(w, poly{})
 					pos, found := false, false
-					for _, g := range guardsAt(c.Block()) {
+					for _, g := range guardsAt(ws.at.Block()) {
 						bo, ok := g.Cond.(*ssa.BinOp)
 						if !ok || bo.Op.String() != ">" {
 							continue
